@@ -48,6 +48,7 @@ type WorkerResult struct {
 	SlowQ       int               `json:"slow_queries"`
 	SlowS       float64           `json:"slow_queries_s"`
 	MaxQS       float64           `json:"max_query_s"`
+	Retried     int               `json:"decided_by_fresh_solver"`
 	WallS       float64           `json:"wall_s"`
 	LoadS       float64           `json:"load_s"`
 	Terms       int               `json:"terms"`
@@ -155,6 +156,7 @@ func runWorker(p *load.Program, loadS float64, harness string, bounds map[string
 	res.Queries, res.Sat, res.Unsat, res.Unknown, res.SolverErrs = st.Queries, st.Sat, st.Unsat, st.Unknown, st.Errors
 	res.SolverS = float64(st.SolverNs) / 1e9
 	res.SlowQ, res.SlowS, res.MaxQS = st.Slow, float64(st.SlowNs)/1e9, float64(st.MaxNs)/1e9
+	res.Retried = st.Retried
 	res.WallS = time.Since(t0).Seconds()
 	res.Terms = term.NumTerms()
 	res.TimedOut = ex.TimedOut
